@@ -128,14 +128,14 @@ def run(ctx):
     args = []
     if ctx.tier == 'quick':
         for i in range(10):
-            args.append((shard_pm2, (ctx.seed * 13 + i, 30)))
+            args.append((shard_pm2, (ctx.seed * 13 + i, 150)))
         for i in range(8):
-            args.append((shard_pm1, (ctx.seed * 17 + i, 10, list(range(i * 4, i * 4 + 4)))))
+            args.append((shard_pm1, (ctx.seed * 17 + i, 60, list(range(i * 4, i * 4 + 4)))))
     else:
         for i in range(32):
-            args.append((shard_pm2, (ctx.seed * 13 + i, 320)))
+            args.append((shard_pm2, (ctx.seed * 13 + i, 2500)))
         for i in range(32):
-            args.append((shard_pm1, (ctx.seed * 17 + i, 320, [i])))
+            args.append((shard_pm1, (ctx.seed * 17 + i, 2500, [i])))
     args.append((shard_pm1_directed, (ctx.seed,)))
     core.run_shards(ctx, _dispatch, args)
     miss = [f for f in REQ_PM2 if f not in ctx.cov.get('pm2_features', {})] + \
